@@ -294,6 +294,15 @@ def fixed_cases():
         r = B.inline(inner)(x=x, c=c)["y"]
         out.append(B.Case({"x": x, "c": c}, {"out": MODS[vouter].add(MODS[17].mul(r, r), x)}, False,
                           {"fixed": f"inlined-model-with-ml-operator-in-a-branch/outer-v{vouter}"}))
+    # a function written with v17 constructors: built FIRST inside a model that needs opset 19, THEN on its own - what the model around a
+    # function needed in an earlier build is no requirement of the function (the later model imports what a fresh trace imports: 14)
+    from spox._function import to_function
+    fn = to_function("Half", "verif.c09")(lambda x: [MODS[17].mul(x, MODS[17].const(np.array(0.5, np.float32)))])
+    xf = B.argument(B.Tensor(np.float32, (3,)))
+    (yf,) = list(fn(xf))
+    alone = B.Case({"x": xf}, {"y": yf}, False, {"fixed": "function-built-alone-after-a-newer-model"})
+    alone.pre = ({"x": xf}, {"y": MODS[19].identity(yf)}, False)
+    out.append(alone)
     from harness import c02
     for fc in c02.converted_twice_cases():
         fc.meta["fixed"] = fc.meta["names"].replace("corner:", "")
